@@ -598,24 +598,46 @@ func sanitizeSynopsis(f *doc.Func) string {
 
 func setDefault(pi *PkgInfo) {
 	for _, v := range pi.DocPkg.Vars {
-		for x, name := range v.Names {
-			if name != "Default" {
-				continue
-			}
-			spec := v.Decl.Specs[x].(*ast.ValueSpec)
-			if len(spec.Values) != 1 {
-				log.Println("warning: default declaration has multiple values")
-			}
-
-			f, err := getFunction(spec.Values[0], pi)
-			if err != nil {
-				log.Println("warning, default declaration malformed:", err)
-				return
-			}
-			pi.DefaultFunc = f
+		value, found := declaredValue(v, "Default")
+		if !found {
+			continue
+		}
+		if value == nil {
+			log.Println("warning: default declaration has no value of its own")
 			return
 		}
+		f, err := getFunction(value, pi)
+		if err != nil {
+			log.Println("warning, default declaration malformed:", err)
+			return
+		}
+		pi.DefaultFunc = f
+		return
 	}
+}
+
+// declaredValue finds the variable called name in the declaration and returns
+// the expression it is initialised with. v.Names lists the names of all specs
+// of the declaration, so it cannot be used to index v.Decl.Specs. The value is
+// nil if the name is declared without a value of its own, as in
+// `var a, b = f()` or `var x T`.
+func declaredValue(v *doc.Value, name string) (value ast.Expr, found bool) {
+	for _, s := range v.Decl.Specs {
+		spec, ok := s.(*ast.ValueSpec)
+		if !ok {
+			continue
+		}
+		for i, id := range spec.Names {
+			if id.Name != name {
+				continue
+			}
+			if len(spec.Values) != len(spec.Names) {
+				return nil, true
+			}
+			return spec.Values[i], true
+		}
+	}
+	return nil, false
 }
 
 func lit2string(l *ast.BasicLit) (string, bool) {
@@ -627,50 +649,41 @@ func lit2string(l *ast.BasicLit) (string, bool) {
 
 func setAliases(pi *PkgInfo) {
 	for _, v := range pi.DocPkg.Vars {
-		for x, name := range v.Names {
-			if name != "Aliases" {
-				continue
-			}
-			spec, ok := v.Decl.Specs[x].(*ast.ValueSpec)
-			if !ok {
-				log.Println("warning: aliases declaration is not a value")
-				return
-			}
-			if len(spec.Values) != 1 {
-				log.Println("warning: aliases declaration has multiple values")
-			}
-			comp, ok := spec.Values[0].(*ast.CompositeLit)
-			if !ok {
-				log.Println("warning: aliases declaration is not a map")
-				return
-			}
-			pi.Aliases = map[string]*Function{}
-			for _, elem := range comp.Elts {
-				kv, ok := elem.(*ast.KeyValueExpr)
-				if !ok {
-					log.Printf("warning: alias declaration %q is not a map element", elem)
-					continue
-				}
-				k, ok := kv.Key.(*ast.BasicLit)
-				if !ok || k.Kind != token.STRING {
-					log.Printf("warning: alias key is not a string literal %q", elem)
-					continue
-				}
-
-				alias, ok := lit2string(k)
-				if !ok {
-					log.Println("warning: malformed name for alias", elem)
-					continue
-				}
-				f, err := getFunction(kv.Value, pi)
-				if err != nil {
-					log.Printf("warning, alias malformed: %v", err)
-					continue
-				}
-				pi.Aliases[alias] = f
-			}
+		value, found := declaredValue(v, "Aliases")
+		if !found {
+			continue
+		}
+		comp, ok := value.(*ast.CompositeLit)
+		if !ok {
+			log.Println("warning: aliases declaration is not a map")
 			return
 		}
+		pi.Aliases = map[string]*Function{}
+		for _, elem := range comp.Elts {
+			kv, ok := elem.(*ast.KeyValueExpr)
+			if !ok {
+				log.Printf("warning: alias declaration %q is not a map element", elem)
+				continue
+			}
+			k, ok := kv.Key.(*ast.BasicLit)
+			if !ok || k.Kind != token.STRING {
+				log.Printf("warning: alias key is not a string literal %q", elem)
+				continue
+			}
+
+			alias, ok := lit2string(k)
+			if !ok {
+				log.Println("warning: malformed name for alias", elem)
+				continue
+			}
+			f, err := getFunction(kv.Value, pi)
+			if err != nil {
+				log.Printf("warning, alias malformed: %v", err)
+				continue
+			}
+			pi.Aliases[alias] = f
+		}
+		return
 	}
 }
 
